@@ -234,6 +234,17 @@ def hyp_search(ctx, strategy, fn, max_examples, name='', max_buckets=6, shrink=T
             continue
         except hypothesis.errors.Unsatisfiable as exc:
             raise HarnessError('generator unsatisfiable in %s: %r' % (name, exc))
+        except hypothesis.errors.Flaky:
+            # the same input gave different outcomes when Hypothesis re-executed it.  Every check is a pure function
+            # of its input, so the state that differs lives in the library under test (a cache, a shared default):
+            # the violation that was observed stands, with its input as the replay case
+            v = last.get('v')
+            if v is None:
+                raise
+            ctx.fail(v.key, v.what + ' [outcome for this input changed between executions: the library keeps '
+                     'state across calls]', v.case)
+            ignored.add(v.key)
+            continue
         break
     return ignored
 
